@@ -1,2 +1,105 @@
-import SyneTune.Model.SyncScheduler
-/- placeholder, theorems follow -/
+import SyneTune.Lemmas.SyncMore
+/-
+C20 (synchronous Hyperband part) — a trial reported by
+`trials_checkpoints_can_be_removed` (a non-promoted trial of a completed rung) is never
+resumed afterwards, so deleting its checkpoint is safe.  Property theorems only;
+`Reachable` as in `Props/C05.lean`.
+
+`NotPromoted g t` (Lemmas/SyncMore.lean): some bracket has a completed rung `k` holding
+`t` whose successor rung `k+1` exists and does not hold `t`.  Completed rungs are kept
+for ever, so this is a property of the state, not of the history.
+-/
+namespace SyneTune.C20Sync
+open SyneTune SyneTune.Sync
+
+/-- **What is reported is not promoted.**  In every reachable state each trial id on the
+list `_trials_checkpoints_can_be_removed` is a non-promoted trial of a completed rung. -/
+theorem removable_not_promoted (mode : Mode) (systems : List (List (Nat × Nat))) (s : Sched)
+    (h : Reachable mode systems s) (t : Nat) (ht : some t ∈ s.removable) : NotPromoted s.mgr t :=
+  reachable_inv20 h t ht
+
+/-- **Non-promoted stays non-promoted** over every continuation of the history (also after
+the list has been fetched and cleared). -/
+theorem not_promoted_stable (mode : Mode) (systems : List (List (Nat × Nat))) (s : Sched)
+    (h : Reachable mode systems s) (t : Nat) (ht : NotPromoted s.mgr t) (ops : List Op) (hl : LegalRun s ops) :
+    NotPromoted (s.run ops).mgr t :=
+  (run_more (reachable_inv h).1 ops hl).2.1 t ht
+
+/-- **A non-promoted trial is not resumed.**  Trial ids are global: `t` occurs in one
+bracket only, there only in rungs up to the completed rung `k` it was dropped from, and
+`suggest` resumes only trials sitting in the current rung of a bracket. -/
+theorem not_promoted_never_resumed (mode : Mode) (systems : List (List (Nat × Nat))) (s : Sched)
+    (h : Reachable mode systems s) (t : Nat) (ht : NotPromoted s.mgr t) (tid : Nat) (c : Bool)
+    (hfresh : tid ∉ s.configs) (s' : Sched) (lvl : Nat) (cl : Option Nat) (calls : List SCall) :
+    s.suggest tid c ≠ .ok (s', .resume t lvl cl, calls) := by
+  intro hs
+  have hI := (reachable_inv h).1
+  obtain ⟨s2, sg, calls2, hs2, _, hf⟩ := suggest_spec hI tid c hfresh
+  rw [hs] at hs2
+  simp only [Except.ok.injEq, Prod.mk.injEq] at hs2
+  obtain ⟨rfl, rfl, rfl⟩ := hs2
+  obtain ⟨g1, id, sl, br1, rg, x, _, hcase, hh, _, hc⟩ := hf.job
+  rcases hc with ⟨t', hx, hsg, _⟩ | ⟨_, _, hsg, _⟩ | ⟨_, _, hsg, _⟩
+  · simp only [Suggestion.resume.injEq] at hsg
+    obtain ⟨rfl, _, _⟩ := hsg
+    obtain ⟨br0, rg0, x0, hjs⟩ := jobCase_struct hI.mwf hcase
+    have hb1 : br1 = bump br0 := by
+      have := hjs.atId; rw [hh.hbr] at this; exact Option.some.inj this
+    subst hb1
+    have hrg0 : br0.rungs[br0.current]? = some rg := hh.hrg
+    have hid0 : br0.HasId t := (handed_hasId hh t hx).1
+    have hold : s.mgr.brackets[id]? = some br0 := by
+      rcases hjs.old with ho | ⟨_, hno, _⟩
+      · exact ho
+      · exact absurd hid0 (hno t)
+    obtain ⟨spec, _, hb, _⟩ := hI.mwf.wf id br0 hold
+    -- the bracket in which `t` was not promoted is the same bracket
+    obtain ⟨j, b, k, prev, next, hbj, hprev, hnext, htprev, htnext⟩ := ht
+    have hidb : b.HasId t := ⟨prev, List.mem_of_getElem? hprev, htprev⟩
+    have hji : j = id := hI.disjoint j id b br0 t hbj hold hidb hid0
+    subst hji
+    rw [hold] at hbj
+    have : b = br0 := (Option.some.inj hbj).symm
+    subst this
+    have hk1 : k + 1 < b.rungs.length := getElem?_lt hnext
+    have hcur : k + 1 ≤ b.current := by have := hb.len; omega
+    have htrg : t ∈ rg.ids := (mem_ids_iff rg t).mpr ⟨sl.slotIndex, x, hh.hsl, hx⟩
+    -- `t` occurs in rung `k` and in the current rung, hence in rung `k+1`: contradiction
+    obtain ⟨rgi, hrgi, hti⟩ := ids_down hb t k prev hprev htprev (b.current - k) b.current rg (by omega) hrg0 htrg
+      (k + 1) (by omega) hcur
+    rw [hnext] at hrgi
+    have : rgi = next := (Option.some.inj hrgi).symm
+    subst this
+    exact htnext hti
+  · cases hsg
+  · cases hsg
+
+/-- **A checkpoint reported as removable is never needed again.**  Once a trial id has
+appeared in the list handed out by `trials_checkpoints_can_be_removed` (state `s`), no
+`suggest` after any continuation `ops` of the history resumes this trial. -/
+theorem resume_has_ckpt_sync (mode : Mode) (systems : List (List (Nat × Nat))) (s : Sched)
+    (h : Reachable mode systems s) (t : Nat) (ht : some t ∈ s.removable)
+    (ops : List Op) (hl : LegalRun s ops) (tid : Nat) (c : Bool) (hfresh : tid ∉ (s.run ops).configs)
+    (s' : Sched) (lvl : Nat) (cl : Option Nat) (calls : List SCall) :
+    (s.run ops).suggest tid c ≠ .ok (s', .resume t lvl cl, calls) := by
+  have hnp := not_promoted_stable mode systems s h t (removable_not_promoted mode systems s h t ht) ops hl
+  have hreach : Reachable mode systems (s.run ops) := by
+    obtain ⟨a, b, s0, ops0, hinit, hl0, rfl⟩ := h
+    refine ⟨a, b, s0, ops0 ++ ops, hinit, ?_, by simp [Sched.run, List.foldl_append]⟩
+    clear hinit ht hnp hfresh
+    induction ops0 generalizing s0 with
+    | nil => exact hl
+    | cons o os ih => exact ⟨hl0.1, ih (s0.next o) hl0.2 hl⟩
+  exact not_promoted_never_resumed mode systems _ hreach t hnp tid c hfresh s' lvl cl calls
+
+/-! ### non-vacuity -/
+
+/-- rung system `[(2,1),(1,2)]`: trial 0 (metric 1/2) loses against trial 1 (metric 1/4) and
+is reported as removable -/
+example :
+    ∃ s0, Sched.init .min [[(2, 1), (1, 2)]] false false = .ok s0 ∧
+      (s0.run [.suggest 0 true, .suggest 1 true, .result 0 1 (.val (1/2)), .result 1 1 (.val (1/4))]).removable
+        = [some 0] :=
+  ⟨_, rfl, by decide +kernel⟩
+
+end SyneTune.C20Sync
